@@ -8,3 +8,9 @@ for v in d['violations'][:int(sys.argv[2]) if len(sys.argv)>2 else 12]: print(' 
 print('panics_expected',sum(o['panics_expected'] for o in d['ops'].values()),'boundary',sum(o['boundary'] for o in d['ops'].values()))
 mr=sorted(((o['max_ratio'],k) for k,o in d['ops'].items() if isinstance(o['max_ratio'],(int,float)) and o['max_ratio']>0),reverse=True)[:15]
 print('max ratios',mr)
+
+rt={}
+for k,o in d['ops'].items():
+    for t,v in o.get('ratios',{}).items():
+        if isinstance(v,(int,float)): rt[(k.split('::')[0],t)]=max(rt.get((k.split('::')[0],t),0),v)
+print('per-quantity ratios:', sorted(((round(v,3),k) for k,v in rt.items()), reverse=True)[:40])
